@@ -345,7 +345,8 @@ func (in *Interp) conv(tdst, tsrc types.Type, x Value) Value {
 				}
 				if bd.Info()&types.IsFloat != 0 {
 					if xt.op != OpConst {
-						unsup("int->float conversion of symbolic value")
+						// opaque: may only be passed around (metrics, logging); any arithmetic on it is unsupported
+						return OpaqueFloat{src: xt}
 					}
 					var f float64
 					if isSignedT(tsrc) {
